@@ -1,8 +1,10 @@
 package props
 
 import (
+	"context"
 	"errors"
 	"fmt"
+	"io"
 	"strings"
 	"testing"
 	"time"
@@ -23,10 +25,24 @@ type c12Scenario struct {
 	At          int           `json:"at"`     // request index / unit count
 	FaultKind   string        `json:"fault_kind,omitempty"`
 	CloseCalls  int           `json:"close_calls"`
-	AlsoCloseAt int           `json:"also_close_at"` // with a fault: additionally close at this request (-1: no)
+	AlsoCloseAt int           `json:"also_close_at"`      // with a fault: additionally close at this request (-1: no)
+	ErrKind     string        `json:"err_kind,omitempty"` // plain | ctx-canceled | deadline | eof : what OnTracks / the transport returns
+	Shape       string        `json:"shape,omitempty"`    // "" | many-samples | ll-hint-stall
 }
 
 var errOnTracks = errors.New("harness: OnTracks refuses the tracks")
+
+func errOfKind(kind, what string) error {
+	switch kind {
+	case "ctx-canceled":
+		return fmt.Errorf("%s: %w", what, context.Canceled)
+	case "deadline":
+		return fmt.Errorf("%s: %w", what, context.DeadlineExceeded)
+	case "eof":
+		return fmt.Errorf("%s: %w", what, io.EOF)
+	}
+	return fmt.Errorf("%s", what)
+}
 
 func drawC12(t *rapid.T) c12Scenario {
 	sc := c12Scenario{Stream: drawStream(t), AlsoCloseAt: -1}
@@ -36,6 +52,30 @@ func drawC12(t *rapid.T) c12Scenario {
 	}
 	sc.Inject = rapid.SampledFrom([]string{"close-at-request", "close-at-request", "close-in-ontracks", "close-after-units", "close-after-units", "close-after-wait", "fault", "fault", "fault", "ontracks-error", "none"}).Draw(t, "inject")
 	sc.CloseCalls = rapid.IntRange(1, 3).Draw(t, "closeCalls")
+	sc.ErrKind = rapid.SampledFrom([]string{"plain", "plain", "ctx-canceled", "deadline", "eof"}).Draw(t, "errKind")
+	switch rapid.IntRange(0, 9).Draw(t, "shape") {
+	case 0, 1:
+		// MPEG-TS segments with far more samples than the per-track sample queue holds
+		sc.Shape = "many-samples"
+		var sd cli.StreamDef
+		sd.Container = "mpegts"
+		sd.VOD = true
+		sd.Lead.Tracks = []cli.TrackDef{{Codec: "h264", TimeScale: 90000, SampleDur: 90}}
+		if rapid.Bool().Draw(t, "msAudio") {
+			sd.Lead.Tracks = append(sd.Lead.Tracks, cli.TrackDef{Codec: "aac", TimeScale: 90000, SampleDur: 90})
+		}
+		for i := 0; i < 3; i++ {
+			sg := cli.SegShape{Date: true}
+			for range sd.Lead.Tracks {
+				sg.Frags = append(sg.Frags, []int{rapid.IntRange(120, 260).Draw(t, "msCount")})
+			}
+			sd.Lead.Segs = append(sd.Lead.Segs, sg)
+		}
+		sc.Stream = sd
+		sc.Entry = "lead"
+	case 2:
+		sc.Shape = "ll-hint-stall"
+	}
 	switch sc.Inject {
 	case "close-at-request":
 		sc.At = rapid.IntRange(0, 14).Draw(t, "atReq")
@@ -53,18 +93,27 @@ func drawC12(t *rapid.T) c12Scenario {
 
 func execC12(sc c12Scenario) core.Outcome {
 	var o core.Outcome
+	if sc.Shape == "ll-hint-stall" {
+		return execC12HintStall(sc)
+	}
 	b, err := cli.Build(sc.Stream)
 	if err != nil {
 		o.Skip = true
 		return o
 	}
 	srv := serveStatic(b)
+	srv.TransportErr = errOfKind(sc.ErrKind, "injected transport error")
+	onTracksErr := errOfKind(sc.ErrKind, errOnTracks.Error())
 	uri := "http://stream.test/lead.m3u8"
 	if sc.Entry == "multi" {
 		uri = "http://stream.test/index.m3u8"
 	}
-	opts := cli.RunOpts{URI: uri, Server: srv, CloseAtRequest: -1, CloseCalls: sc.CloseCalls, MaxWait: 30 * time.Second}
+	opts := cli.RunOpts{URI: uri, Server: srv, CloseAtRequest: -1, CloseCalls: sc.CloseCalls, MaxWait: 8 * time.Second}
 	label := sc.Inject
+	if sc.Shape != "" {
+		o.Labels = append(o.Labels, "shape:"+sc.Shape)
+	}
+	o.Labels = append(o.Labels, "errkind:"+sc.ErrKind)
 	switch sc.Inject {
 	case "close-at-request":
 		opts.CloseAtRequest = sc.At
@@ -84,7 +133,7 @@ func execC12(sc c12Scenario) core.Outcome {
 			opts.CloseAtRequest = sc.AlsoCloseAt
 		}
 	case "ontracks-error":
-		opts.OnTracksErr = errOnTracks
+		opts.OnTracksErr = onTracksErr
 	}
 	r := cli.RunClient(opts)
 	o.Labels = append(o.Labels, "inject:"+label, "container:"+sc.Stream.Container)
@@ -132,7 +181,7 @@ func execC12(sc c12Scenario) core.Outcome {
 			return fail(o, "undisturbed client ended with %q instead of ErrClientEOS", r.WaitErr)
 		}
 	case "ontracks-error":
-		if landed && !errors.Is(r.WaitErr, errOnTracks) {
+		if landed && (r.WaitErr == nil || !r.WaitReturned || !strings.Contains(r.WaitErr.Error(), errOnTracks.Error())) {
 			return fail(o, "OnTracks returned an error but Wait() yielded %q", r.WaitErr)
 		}
 	case "fault":
@@ -187,3 +236,55 @@ var propC12 = core.Prop[c12Scenario]{
 }
 
 func TestC12(t *testing.T) { core.Run(t, propC12) }
+
+// execC12HintStall: a Low-Latency stream whose preload-hint request is held by the server;
+// Close must still end the client.
+func execC12HintStall(sc c12Scenario) core.Outcome {
+	var o core.Outcome
+	var sd cli.StreamDef
+	sd.Container = "fmp4"
+	pl := cli.PlaylistDef{Tracks: []cli.TrackDef{{Codec: "h264", TimeScale: 90000, SampleDur: 900}}}
+	for i := 0; i < 6; i++ {
+		pl.Segs = append(pl.Segs, cli.SegShape{Frags: [][]int{{1}}, Date: true})
+	}
+	sd.Lead = pl
+	b, err := cli.Build(sd)
+	if err != nil {
+		o.Skip = true
+		return o
+	}
+	srv := cli.NewServer()
+	for p, f := range b.Files {
+		srv.AddFile(p, f)
+	}
+	extra := []string{"#EXT-X-SERVER-CONTROL:CAN-BLOCK-RELOAD=YES,PART-HOLD-BACK=0.3", "#EXT-X-PART-INF:PART-TARGET=0.1"}
+	var snaps []string
+	for k := 0; k < 3; k++ {
+		txt := cli.MediaPlaylistText(b.Lead, "fmp4", 0, 0, 3+k, false, false, extra)
+		txt += fmt.Sprintf("#EXT-X-PRELOAD-HINT:TYPE=PART,URI=\"%s\"\n", b.Lead.SegURIs[3+k])
+		snaps = append(snaps, txt)
+	}
+	srv.AddPlaylist("lead.m3u8", snaps...)
+	// requests: playlist, init, hint0, playlist, hint1, ... : stall the n-th hint
+	stallAt := 2 + 2*(sc.At%3)
+	srv.AddFault(cli.Fault{AtReq: stallAt, Kind: "stall"})
+	r := cli.RunClient(cli.RunOpts{URI: "http://stream.test/lead.m3u8", Server: srv, CloseAtRequest: -1, CloseCalls: sc.CloseCalls, MaxWait: 1200 * time.Millisecond})
+	o.Labels = append(o.Labels, "shape:ll-hint-stall", "inject:stall-on-preload-hint")
+	o.NonTrivial = len(r.Requests) > stallAt
+	if strings.HasPrefix(fmt.Sprint(r.WaitErr), "HARNESS:") {
+		return fail(o, "a preload-hint request is held by the server: Wait() yields nothing even 10 s after Close; requests %v", reqURLs(r.Requests))
+	}
+	if r.WaitReturned && len(r.Requests) > stallAt {
+		return fail(o, "the preload-hint request stalls forever but Wait() yielded %q on its own", r.WaitErr)
+	}
+	if r.SecondValue {
+		return fail(o, "a second value was received from Wait()")
+	}
+	if r.CallbacksAfter > 0 {
+		return fail(o, "%d user callbacks after Wait() yielded", r.CallbacksAfter)
+	}
+	if len(r.Leaked) > 0 {
+		return fail(o, "client goroutines still alive 3 s after Wait() yielded %q: %v", r.WaitErr, r.Leaked)
+	}
+	return o
+}
